@@ -3,7 +3,7 @@ their prefix style, and _trait_delegate installs the handler of the style it is 
 import z3
 
 from vc.unit import CContract, register
-from vc.cvc.core import Obj, NULL, INT, EXC, CSt
+from vc.cvc.core import Obj, NULL, INT, EXC, CSt, as_int
 from vc.cvc import api as A
 from vc.cvc import front
 from contracts.c.validators import own_neutral
@@ -111,3 +111,243 @@ class TraitDelegate(CContract):
 
     def covers(self, cx, ov, info):
         return [("installs", lambda r, s: r != NULL)]
+
+
+MODIFY_DELEGATE = 0x2
+
+
+@register
+class SetattrDelegate(CContract):
+    """setattr_delegate(traito, traitd, obj, name, value): assignment to (value != NULL) or deletion of (value == NULL) a
+    DelegatesTo / PrototypedFrom attribute, for a delegation chain of ANY length (loop invariant over the hops).
+
+    C11: 'assigning [a DelegatesTo attribute] validates against and stores into the delegate only.  A PrototypedFrom
+    attribute ... assigned locally (validated by the prototype's trait), then holds its own value independently ... While
+    linked, a change of the target attribute ... notifies handlers ... after the link is broken such changes do not':
+      * exactly one setattr handler runs, that of the first non-delegating trait found along the chain;
+      * MODIFY_DELEGATE (DelegatesTo): it is handed (that trait, that trait, the final delegate, the final attribute name,
+        value) -- nothing is stored on obj and the listener link is left alone;
+      * otherwise (PrototypedFrom): it is handed (traito, that trait, obj, name, value) -- the prototype's trait validates,
+        obj stores -- and the delegate listener is unhooked only AFTER that assignment succeeded (a rejected value leaves
+        the link in place) and told whether this was an assignment or a deletion;
+      * every failure returns -1 with the error indicator set and no handler call after it; references are neutral."""
+    qualname = "setattr_delegate"
+    properties = ("C11", "C19")
+    extra_properties = ("C18",)
+    side_props = {"valid-deref": ("C18",), "bounds": ("C18",)}
+    own = True
+    assumptions = ("A-API", "A-HAVOC", "A-ALLOC", "A-INT",
+                   "A-TYPEINV: a trait with a delegate_attr_name handler has a delegate_name (installed together by _trait_delegate)",
+                   "has_traits_getattro (own contract: new reference or NULL+error), get_prefix_trait, trait->setattr and "
+                   "trait->delegate_attr_name (own contracts: a new non-NULL name) used through summaries",
+                   "termination: variant 100 - i")
+
+    def configure(self, cx, ex, ov):
+        from contracts.c.lookup import lookup_env
+        lookup_env(cx)
+        traito, obj = z3.Consts("traito obj", Obj)
+
+        def keep(api, before, after):
+            # Python code run along the chain does not redefine the deferring trait itself while it is being assigned
+            f = api.ex.field_array
+            return self.type_invariants(api.ex, after.assume(f(after, "flags")[traito] == f(before, "flags")[traito]))
+        cx.havoc_keeps = keep
+
+        def getattro(ex2, args, st, k):
+            st = st.log(("has_traits_getattro",) + tuple(args))
+            return ex2.api.python_call(st, "has_traits_getattro", k, lambda s: k(NULL, s), result_prefix="delegate")
+        cx.summaries["has_traits_getattro"] = getattro
+
+        self._own0 = z3.Const("own0", z3.ArraySort(Obj, INT))
+
+        def setattr_family(ex2, fn, args, st, k):
+            final = ex2.field_array(st, "delegate_attr_name")[args[1]] == 0
+            st = st.log(("setattr",) + tuple(args) + (final, fn == ex2.field_array(st, "setattr")[args[1]]))
+            s1 = ex2.api.havoc(st, "trait->setattr")
+            e = cx.fresh("exc", INT)
+            return k(z3.IntVal(0), s1.gset("setattr_result", z3.IntVal(0))) + \
+                k(z3.IntVal(-1), s1.assume(e >= 1).with_exc(e).gset("setattr_result", z3.IntVal(-1)))
+        cx.field_call["setattr"] = setattr_family
+
+        def attr_name(ex2, fn, args, st, k):
+            st = st.log(("delegate_attr_name", fn) + tuple(args))
+            r, s1 = ex2.api.fresh_obj("daname", st)
+            return k(r, s1)
+        cx.field_call["delegate_attr_name"] = attr_name
+        for nm, code in (("bad_delegate_error", EXC["DelegationError"]), ("bad_delegate_error2", EXC["DelegationError"]),
+                         ("fatal_trait_error", EXC["TraitError"]), ("delegation_recursion_error", EXC["DelegationError"])):
+            def err(ex2, args, st, k, nm=nm, code=code):
+                e = cx.fresh("exc", INT)      # TypeError for a non-string name, the named error otherwise
+                return k(z3.IntVal(-1), st.log((nm,) + tuple(args)).assume(z3.Or(e == code, e == EXC["TypeError"])).with_exc(e))
+            cx.summaries[nm] = err
+
+        def inv(ex2, st, entry):
+            own0 = self._own0
+            o = z3.Const("o!lh", Obj)
+            dan, dele, td, i = st.env["daname"], st.env["delegate"], st.env["traitd"], st.env["i"]
+            since = []
+            for r in reversed(st.trace):
+                if r[0] == "python" and str(r[1]).startswith("loop-head:"):
+                    break
+                since.append(r)
+            quiet = all(r[0] not in ("setattr", "callmethod") for r in since) and \
+                all(r[0] not in ("setattr", "callmethod") for r in entry.trace)
+            out = [("current-name-held-by-one-reference", z3.And(dan != NULL, st.own == z3.Store(own0, dan, own0[dan] + 1))),
+                   ("delegate-and-trait-valid", z3.And(dele != NULL, td != NULL)),
+                   ("trait-is-a-delegating-trait", ex2.field_array(st, "delegate_name")[td] != NULL),
+                   ("no-error-pending", st.exc == 0),
+                   ("hop-count-in-range", z3.And(i >= 0, i < 100)),
+                   ("no-handler-has-run-yet", z3.BoolVal(quiet))]
+            for n in ("traito", "obj", "name", "value"):
+                out.append(("parameter-%s-unchanged" % n, st.env[n] == entry.env[n]))
+            return out
+        cx.on_loop = lambda ex2, s, st: ex2.invariant_loop(
+            s, st, {"daname": Obj, "delegate": Obj, "traitd": Obj, "i": INT}, inv,
+            variant=lambda ex3, st3: 100 - st3.env["i"], name="delegation-chain")
+
+    def type_invariants(self, ex, st):
+        """A-TYPEINV, assumed of every heap the function sees: delegating traits carry a delegate name, and CHasTraits
+        instances their class-trait dictionary (has_traits_new)."""
+        t = z3.Const("t!ti", Obj)
+        return st.assume(
+            z3.ForAll([t], z3.Implies(ex.field_array(st, "delegate_attr_name")[t] != 0, ex.field_array(st, "delegate_name")[t] != NULL)),
+            z3.ForAll([t], z3.Implies(z3.And(t != NULL, A.subtype(A.type_of(t), ex.cx.const_obj("has_traits_type"))),
+                                      ex.field_array(st, "ctrait_dict")[t] != NULL)))
+
+    def c_setup(self, cx, ex, ov):
+        traito, traitd, obj, name, value = z3.Consts("traito traitd obj name value", Obj)
+        st = CSt().assume(traito != NULL, traitd != NULL, obj != NULL, name != NULL)
+        st = self.type_invariants(ex, st)
+        st = st.assume(ex.field_array(st, "delegate_name")[traitd] != NULL, A.subtype(A.type_of(obj), cx.const_obj("has_traits_type")))
+        flags = ex.field_array(st, "flags")[traito]
+        info = dict(traito=traito, traitd=traitd, obj=obj, name=name, value=value, st0=st,
+                    witness={"modify_delegate": (flags & MODIFY_DELEGATE) != 0, "deleting": value == NULL},
+                    concretise=lambda m: dict(harness="delegate", family="setattr_delegate",
+                                              modify=z3.is_true(m.eval((flags & MODIFY_DELEGATE) != 0, model_completion=True)),
+                                              deleting=z3.is_true(m.eval(value == NULL, model_completion=True))))
+        return st, [traito, traitd, obj, name, value], info
+
+    def c_post(self, cx, ex, ov, info, ret, st):
+        traito, obj, name, value = info["traito"], info["obj"], info["name"], info["value"]
+        modify = (ex.field_array(info["st0"], "flags")[traito] & MODIFY_DELEGATE) != 0
+        T = list(st.trace)
+        sets = [r for r in T if r[0] == "setattr"]
+        unhooks = [r for r in T if r[0] == "callmethod"]
+        out = [("post:negative-iff-error-indicator-set", (ret < 0) == (st.exc != 0)),
+               ("post:at-most-one-setattr-handler-call", z3.BoolVal(len(sets) <= 1)),
+               ("post:success-means-the-final-trait's-handler-ran", z3.Implies(ret >= 0, z3.BoolVal(len(sets) == 1)))]
+        if sets:
+            c = sets[0]
+            # c = ("setattr", traito', traitd', obj', name', value'); the final trait is c[2]
+            out.append(("post:DelegatesTo-stores-into-the-delegate-only", z3.Implies(modify, z3.And(c[1] == c[2], c[5] == value))))
+            out.append(("post:DelegatesTo-leaves-the-listener-link-alone", z3.Implies(modify, z3.BoolVal(not unhooks))))
+            out.append(("post:PrototypedFrom-stores-on-the-object-validated-by-the-prototype's-trait",
+                        z3.Implies(z3.Not(modify), z3.And(c[1] == traito, c[3] == obj, c[4] == name, c[5] == value))))
+            out.append(("post:the-handler-is-that-of-the-first-non-delegating-trait-of-the-chain", z3.And(c[6], c[7])))
+        out.append(("post:listener-unhooked-at-most-once", z3.BoolVal(len(unhooks) <= 1)))
+        if unhooks:
+            u = unhooks[0]
+            after_set = bool(sets) and T.index(sets[0]) < T.index(u)
+            ok_flag = st.ghost.get("setattr_result")
+            out.append(("post:listener-unhooked-only-after-the-local-assignment", z3.BoolVal(after_set)))
+            out.append(("post:listener-unhooked-only-if-the-assignment-succeeded",
+                        ok_flag >= 0 if ok_flag is not None else z3.BoolVal(False)))
+            args = u[3]
+            out.append(("post:unhook-call-names-object-attribute-and-assign-or-delete", z3.And(
+                z3.BoolVal(u[2] == "_remove_trait_delegate_listener" and len(args) == 2), u[1] == obj,
+                args[0] == name if len(args) == 2 else z3.BoolVal(False),
+                (as_int(args[1]) != 0) == (value != NULL) if len(args) == 2 else z3.BoolVal(False))))
+        else:
+            out.append(("post:successful-PrototypedFrom-assignment-unhooks-the-listener",
+                        z3.Implies(z3.And(ret >= 0, z3.Not(modify)), z3.BoolVal(False))))
+        if st.own is not None:
+            o = z3.Const("o!own", Obj)
+            out.append(("own:reference-neutral", z3.ForAll([o], st.own[o] == info["own0"][o]), {}, ("C18",)))
+        return out
+
+    def covers(self, cx, ov, info):
+        return [("assigns", lambda r, s: z3.And(r >= 0, z3.BoolVal(any(x[0] == "setattr" for x in s.trace)))),
+                ("unhooks", lambda r, s: z3.BoolVal(any(x[0] == "callmethod" for x in s.trace))),
+                ("fails", lambda r, s: r < 0)]
+
+
+@register
+class GetattrDelegate(CContract):
+    """getattr_delegate(trait, obj, name): the read side of a deferring attribute.
+
+    C11 'always reads as the current value of the target attribute on the current delegate object': one generic attribute
+    lookup, on the object currently stored under (or computed for) the delegate name, for the attribute name computed by the
+    trait's delegate_attr_name handler; its result is returned as is.
+    C18 'errors surface as Python exceptions, never as crashes': that lookup can re-enter getattr_delegate (the delegate's
+    attribute may itself defer -- possibly back to obj), so the recursion needs a variant.  The only one available is the
+    interpreter's recursion budget: the lookup must run inside Py_EnterRecursiveCall / Py_LeaveRecursiveCall, which turns an
+    unbounded chain into RecursionError instead of an overflow of the C stack."""
+    qualname = "getattr_delegate"
+    properties = ("C11",)
+    extra_properties = ("C18",)
+    side_props = {"valid-deref": ("C18",), "bounds": ("C18",)}
+    own = True
+    assumptions = ("A-API", "A-HAVOC", "A-ALLOC", "A-TYPEINV: a delegating trait has a delegate_name",
+                   "has_traits_getattro by its own contract; trait->delegate_attr_name by the delegate_attr_name_* contracts",
+                   "tp_getattro of the delegate: arbitrary Python code (family contract), may re-enter this function")
+
+    def configure(self, cx, ex, ov):
+        from contracts.c.lookup import lookup_env
+        lookup_env(cx)
+
+        def getattro(ex2, args, st, k):
+            st = st.log(("has_traits_getattro",) + tuple(args))
+            return ex2.api.python_call(st, "has_traits_getattro", k, lambda s: k(NULL, s), result_prefix="delegate")
+        cx.summaries["has_traits_getattro"] = getattro
+
+        def attr_name(ex2, fn, args, st, k):
+            st = st.log(("delegate_attr_name", fn) + tuple(args))
+            r, s1 = ex2.api.fresh_obj("daname", st)
+            return k(r, s1)
+        cx.field_call["delegate_attr_name"] = attr_name
+
+        def tp_getattro(ex2, fn, args, st, k):
+            st = st.log(("tp_getattro", args[0], args[1], st.ghost.get("recursion_depth", 0)))
+            return ex2.api.python_call(st, "tp_getattro", lambda r, s: k(r, s.gset("looked_up", r)), lambda s: k(NULL, s), result_prefix="value")
+        cx.field_call["tp_getattro"] = tp_getattro
+
+    def c_setup(self, cx, ex, ov):
+        trait, obj, name = z3.Consts("trait obj name", Obj)
+        st = CSt().assume(trait != NULL, obj != NULL, name != NULL, ex.field_array(CSt(), "delegate_name")[trait] != NULL)
+        d = A.dict_arr(st)
+        od = ex.field_array(st, "obj_dict")[obj]
+        stored = z3.If(od == NULL, NULL, d[od][ex.field_array(st, "delegate_name")[trait]])
+        return st, [trait, obj, name], dict(trait=trait, obj=obj, name=name, stored=stored, st0=st,
+                                            witness={"delegate_in_instance_dict": stored != NULL,
+                                                     "name_is_str": A.is_inst(name, "PyUnicode_Type")},
+                                            concretise=lambda m: dict(harness="delegate", family="getattr_delegate"))
+
+    def c_post(self, cx, ex, ov, info, ret, st):
+        trait, obj, name, stored = info["trait"], info["obj"], info["name"], info["stored"]
+        T = list(st.trace)
+        looks = [r for r in T if r[0] == "tp_getattro"]
+        names = [r for r in T if r[0] == "delegate_attr_name"]
+        gets = [r for r in T if r[0] == "has_traits_getattro"]
+        out = [("post:NULL-iff-error-indicator-set", (ret == NULL) == (st.exc != 0)),
+               ("post:at-most-one-lookup-on-the-delegate", z3.BoolVal(len(looks) <= 1)),
+               ("post:success-comes-from-the-delegate", z3.Implies(ret != NULL, z3.BoolVal(len(looks) == 1))),
+               ("post:recursion-budget-balanced-on-return", z3.BoolVal(st.ghost.get("recursion_depth", 0) == 0), {}, ("C18",))]
+        if looks:
+            l = looks[0]
+            who = stored if not gets else z3.If(stored != NULL, stored, z3.Const("never", Obj))
+            out.append(("post:looks-up-the-name-computed-by-the-trait's-prefix-rule",
+                        z3.BoolVal(len(names) == 1) if not names else z3.And(
+                            z3.BoolVal(len(names) == 1), names[0][2] == trait, names[0][3] == obj, names[0][4] == name)))
+            out.append(("post:delegate-is-the-object-stored-under-the-delegate-name", z3.Implies(stored != NULL, z3.And(l[1] == stored, z3.BoolVal(not gets)))))
+            out.append(("post:otherwise-the-delegate-is-computed-through-normal-attribute-access",
+                        z3.Implies(stored == NULL, z3.BoolVal(len(gets) == 1) if not gets else z3.And(
+                            gets[0][1] == obj, gets[0][2] == ex.field_array(info["st0"], "delegate_name")[trait]))))
+            looked = st.ghost.get("looked_up")
+            out.append(("post:returns-the-delegate's-value-as-is", z3.Implies(ret != NULL, ret == looked if looked is not None else z3.BoolVal(False))))
+            out.append(("post:re-entrant-lookup-is-charged-to-the-recursion-budget", z3.BoolVal(l[3] >= 1),
+                        dict(note="the delegate's attribute may defer again (even back to this object): without "
+                                  "Py_EnterRecursiveCall the recursion has no variant and a delegation cycle overflows the C stack"), ("C18",)))
+        return out + own_neutral(st, info, ret)
+
+    def covers(self, cx, ov, info):
+        return [("reads", lambda r, s: r != NULL), ("fails", lambda r, s: r == NULL)]
